@@ -544,8 +544,27 @@ def gen_string_program(rng, base):
         ins(gen_move_line(rng))
     return ops
 
+FLAG_MOVERS = ['sete al', 'sete ah', 'setb bh', 'setne dh', 'setl dl', 'setns ch', 'setbe cl', 'seto al', 'cmove eax, edx', 'cmovb ecx, eax',
+               'cmovne edx, ecx', 'cmovz ax, cx', 'cmovb dx, cx', 'cmovs cx, ax', 'lahf', 'sahf', 'pushfd', 'popfd', 'pop eax', 'pop ecx', 'cmc', 'clc', 'stc',
+               'sete BYTE PTR [ebx+1]', 'setb BYTE PTR [ebx+2]', 'mov BYTE PTR [ebx+3], ah', 'mov DWORD PTR [ebx+4], eax']
+def gen_flags_program(rng):
+    """Flags moved into registers / memory over CONCRETE register contents, with the flags still
+    symbolic or made concrete by a compare on constants."""
+    ops = []
+    for r in rng.sample(['eax', 'ecx', 'edx'], rng.choice([1, 2, 3])):
+        ops.append({'op': 'insn', 'line': 'mov %s, %d' % (r, rng.choice([0, 0xFF, 0x11223344, 0x80000000, 0xFFFFFFFF, 0x1234]))})
+    z = rng.random()
+    if z < 0.25:
+        ops.append({'op': 'insn', 'line': 'xor ebp, ebp'})
+    elif z < 0.5:
+        ops.append({'op': 'insn', 'line': 'mov ebp, %d' % rng.choice([0, 0x80, 5])})
+        ops.append({'op': 'insn', 'line': rng.choice(['test ebp, ebp', 'cmp ebp, 5'])})
+    for _ in range(rng.randrange(1, 6)):
+        ops.append({'op': 'insn', 'line': rng.choice(FLAG_MOVERS) if rng.random() < 0.8 else gen_move_line(rng)})
+    return ops
+
 def gen_history(rng):
-    mode = rng.choice(['mem'] * 11 + ['insn'] * 5 + ['string'] * 3 + ['arith'])
+    mode = rng.choice(['mem'] * 11 + ['insn'] * 5 + ['string'] * 3 + ['flags'] * 2 + ['arith'])
     base = rng.choice(['sym', 'const'])
     n = min(12, 1 + int(rng.expovariate(1 / 4.0)))
     ops = []
@@ -599,6 +618,8 @@ def gen_history(rng):
             ops.append({'op': 'insn', 'line': gen_misc_line(rng) if rng.random() < pm else gen_move_line(rng)})
     elif mode == 'string':
         ops += gen_string_program(rng, base)
+    elif mode == 'flags':
+        ops += gen_flags_program(rng)
     else:
         for _ in range(n):
             ops.append({'op': 'insn', 'line': gen_arith_line(rng) if rng.random() < 0.7 else gen_move_line(rng)})
